@@ -27,8 +27,10 @@ RULE = (
     "quick: every unordered pair (both argument orders as two runs of one case) of the type systems over the pool "
     "{my.pkg.Token, Token, a.B} with supertypes among {Annotation, the other pool names} (hierarchy only), a structured family of "
     "three-level chains in which the second input re-parents a type below an intermediate ancestor that declares a feature "
-    "(feature agreeing / differing in range / differing in FSArray element type), and seeded random pairs and triples over a pool of "
-    "five names with features f, g in ranges String / Integer / FSArray[element] / pool type (triples: all 6 orders and 3 groupings); "
+    "(feature agreeing / differing in range / differing in FSArray element type; the same with element types - same, absent = TOP, "
+    "different - on ranges that are not FSArray: FSList and a plain type range), and seeded random pairs and triples over a pool of "
+    "five names with features f, g in ranges String / Integer / FSArray[element] / FSList[element] / pool type (with and without "
+    "element type) (triples: all 6 orders and 3 groupings); "
     "thorough: the exhaustive family also with TOP as supertype and one feature in two ranges (sampled pairs), all triples of a "
     "small family, more random cases. A case is non-trivial when some type is declared with two different supertypes or some "
     "feature name is declared twice on what becomes one inheritance chain."
@@ -56,6 +58,8 @@ DOC = "uima.tcas.DocumentAnnotation"
 STR = "uima.cas.String"
 INT = "uima.cas.Integer"
 FSA = "uima.cas.FSArray"
+FSL = "uima.cas.FSList"
+ANB = "uima.cas.AnnotationBase"
 PREDEF = {n for n, _ in BUILTIN_TREE} - {DOC}
 BUILTIN_SUP = dict(BUILTIN_TREE)
 BUILTIN_OWN = {}
@@ -165,6 +169,24 @@ def chain_family():
                                 drop_internal_conflicts(decl)
                                 return ops_from_decl(decl, ["a.A", "a.B", "a.C", "a.X", "a.Y"])
                             out.append([mk(p1, True, True), mk(p2, second_has_b_feature, False)])
+    # the same shape with element types on ranges that are NOT FSArray (Feature.__eq__ compares element types whatever the
+    # range): B declares f : FSList[a.A] (or f : a.A with an element type), X or Y declares f with the same / no (= TOP) /
+    # another element type
+    for rng_t in (FSL, "a.A"):
+        RL = [(rng_t, "a.A"), (rng_t, None), (rng_t, ANN), (rng_t, TOP)]
+        for p1 in (ANN, "a.A"):
+            for p2 in ("a.B", "a.C"):
+                for bf in ((0, 1) if rng_t == FSL else (0,)):
+                    for xf in (0, 1, 2, 3):
+                        for where in ("X", "Y"):
+                            def mk2(px, with_xf):
+                                decl = {"a.A": (ANN, []), "a.B": ("a.A", [("f",) + RL[bf]]),
+                                        "a.C": ("a.B", [("g", STR, None)]), "a.X": (px, []), "a.Y": ("a.X", [])}
+                                if with_xf:
+                                    decl["a.X" if where == "X" else "a.Y"][1].append(("f",) + RL[xf])
+                                drop_internal_conflicts(decl)
+                                return ops_from_decl(decl, ["a.A", "a.B", "a.C", "a.X", "a.Y"])
+                            out.append([mk2(p1, True), mk2(p2, False)])
     return out
 
 
@@ -220,7 +242,11 @@ def rand_input(rng, pool, base):
                 sup = rng.choice(others)
         decl[n] = [sup, []]
     # features
-    ranges = [(STR, None), (INT, None), (FSA, None), (FSA, TOP), (FSA, ANN)] + [(FSA, m) for m in sorted(decl)][:2] + [(m, None) for m in sorted(decl)][:2]
+    ranges = ([(STR, None), (INT, None), (FSA, None), (FSA, TOP), (FSA, ANN)] + [(FSA, m) for m in sorted(decl)][:2]
+              + [(m, None) for m in sorted(decl)][:2]
+              # element types on ranges other than FSArray: FSList, and a plain type range
+              + [(FSL, None), (FSL, TOP), (FSL, ANN), (FSL, ANB)] + [(FSL, m) for m in sorted(decl)][:1]
+              + [(m, ANN) for m in sorted(decl)][:1] + [(STR, ANN)])
     for n in sorted(decl):
         for f in ("f", "g"):
             if rng.random() < 0.3:
@@ -287,6 +313,12 @@ def generate(rng, tier):
         yield _case([[["t", "my.pkg.Token", ANN]], [["t", "Token", ANN], ["t", "a.B", "Token"]]], "named")
         yield _case([[["t", "my.pkg.Token", ANN], ["f", "my.pkg.Token", "f", STR, None]],
                      [["t", "Token", TOP], ["f", "Token", "f", INT, None]], []], "named")
+        # element types on a range that is not FSArray (FSList): same type / absent = TOP / ancestor and descendant
+        for e1, e2 in ((ANN, ANB), (None, ANN), (None, TOP), (ANN, ANN)):
+            yield _case([[["t", "a.A", TOP], ["f", "a.A", "f", FSL, e1]], [["t", "a.A", TOP], ["f", "a.A", "f", FSL, e2]]], "named")
+            yield _case([[["t", "a.A", TOP], ["t", "a.B", "a.A"], ["f", "a.A", "f", FSL, e1]],
+                         [["t", "a.A", TOP], ["t", "a.B", "a.A"], ["f", "a.B", "f", FSL, e2]]], "named")
+        yield _case([[["t", "a.A", ANN], ["f", "a.A", "f", STR, ANN]], [["t", "a.A", ANN], ["f", "a.A", "f", STR, None]]], "named")
     n_rand = {"quick": 560, "thorough": 6000, "search": 6000}[tier]
     for r in range(n_rand):
         n_inputs = 3 if r % (7 if tier == "quick" else 4) == 3 else 2
